@@ -75,7 +75,9 @@ def merge_shard_infos(updates: list[ShardListInfo], dataset_root: Path,
     # Since the ShardsList is saved in a file named shards_list.json there can
     # be at most one update in this depth. We can ignore it since it has been
     # loaded into root_shard_list.
-    assert len(current_level) <= 1
+    assert len({
+        update.shard_list_info_file.file_path for update in current_level
+    }) <= 1
 
     # Move children of root_shard_list into deeper_updates to let recursion
     # merge everything.
